@@ -10,9 +10,11 @@
                   (the thread partition / the generator itself are outside this model)
      SHK k h      the hook (x1, delta, n*lambda/gamma, epoch).
    The code that exists, quirks included:
-   - EvalStopping walks xs.JOINT_ITERATOR(x1); the concrete dense joint iterator's Ok()
-     is false at the first index where BOTH vectors are zero, so the stop test only sees
-     the coordinates before that index ([sg_prefix]);
+   - EvalStopping walks xs.JOINT_ITERATOR(x1); since 494d9f3 the dense joint iterator's Ok()
+     reports whether one of the two vectors delivered an element, so the walk visits EVERY
+     index of the longer vector, a missing entry reading as 0 ([sg_joint]).  Before that fix
+     Ok() was false at the first index where BOTH vectors are zero and the stop test only saw
+     the coordinates before that index ([sg_prefix], kept for the regression lemmas);
    - the hook argument float64(n)*proxop.GetLambda()/gamma.Value is evaluated on a nil
      interface when no regulariser was given: the run panics instead of calling the hook.
    Besides the trace of external calls the machine returns the list of stop-test
@@ -131,7 +133,15 @@ Fixpoint set_nth (j : nat) (e : entry) (d : list entry) : list entry :=
   end.
 
 (* ---- EvalStopping(xs, x1, epsilon) *)
-(* the joint iterator ends at the first index where both entries are zero *)
+(* HEAD (494d9f3): DenseFloat64VectorJointIterator delivers (s1, s2) for every index below the
+   longer dimension; s1 == nil reads as v1 = 0.0, a missing s2 is ConstFloat64(0.0) *)
+Fixpoint sg_joint (xs x1 : vec) : list (A * A) :=
+  match xs, x1 with
+  | [], _ => map (fun b => (zr, b)) x1
+  | _, [] => map (fun a => (a, zr)) xs
+  | a :: xs', b :: x1' => (a, b) :: sg_joint xs' x1'
+  end.
+(* before 494d9f3: the joint iterator ended at the first index where both entries are zero *)
 Fixpoint sg_prefix (xs x1 : vec) : list (A * A) :=
   match xs, x1 with
   | a :: xs', b :: x1' => if (a ==. zr) && (b ==. zr) then [] else (a, b) :: sg_prefix xs' x1'
@@ -153,8 +163,10 @@ Definition sg_decide (eps : A) (m : option (A * A)) : stop_res :=
       let delta := if nz then md /. mx else md in
       if (nz && (md /. mx <=. eps)) || ((mx ==. zr) && (md ==. zr)) then SStop delta else SGo delta
   end.
-Definition sg_eval_stop (xs x1 : vec) (eps : A) : stop_res := sg_decide eps (sg_scan (sg_prefix xs x1) zr zr).
-(* the test over ALL coordinates (what the stopping rule is meant to be) *)
+Definition sg_eval_stop (xs x1 : vec) (eps : A) : stop_res := sg_decide eps (sg_scan (sg_joint xs x1) zr zr).
+(* the test as it was coded before 494d9f3 (regression lemmas only) *)
+Definition sg_eval_stop_prefix (xs x1 : vec) (eps : A) : stop_res := sg_decide eps (sg_scan (sg_prefix xs x1) zr zr).
+(* the test over the coordinates both vectors have (equal dimensions: all of them) *)
 Definition sg_eval_stop_full (xs x1 : vec) (eps : A) : stop_res := sg_decide eps (sg_scan (combine xs x1) zr zr).
 
 (* ---- outcome *)
